@@ -150,6 +150,7 @@ func (y *vsSys) Letters(s *vsState) []engine.Letter {
 			}
 			ls = append(ls, engine.Letter{Name: fmt.Sprintf("RegisterPlan(h+%d,o3,k3,execs=[e1,e2])", dh), Data: vsRegister{dh, "o3", "k3", []string{"e1", "e2"}}})
 			ls = append(ls, engine.Letter{Name: fmt.Sprintf("RegisterPlan(h+%d,o3,k3,execs=[])", dh), Data: vsRegister{dh, "o3", "k3", nil}})
+			ls = append(ls, engine.Letter{Name: fmt.Sprintf("RegisterPlan(h+%d,o3,k3,execs=[e2,e1,e2])", dh), Data: vsRegister{dh, "o3", "k3", []string{"e2", "e1", "e2"}}})
 			// a decodable public key of a type no consensus engine key can be made from
 			ls = append(ls, engine.Letter{Name: fmt.Sprintf("RegisterPlan(h+%d,o3,%s,execs=[e2])", dh, vsUnusableKey), Data: vsRegister{dh, "o3", vsUnusableKey, []string{"e2"}}})
 			ls = append(ls, engine.Letter{Name: fmt.Sprintf("RegisterPlan(h+%d,o3,%s,execs=[e2])", dh, vsShortKey), Data: vsRegister{dh, "o3", vsShortKey, []string{"e2"}}})
